@@ -78,6 +78,62 @@ def standalone(idnt, regressor, training_set="zef18", names=None, lda=None):
     return float(r.rate(datasets=idnt)[0])
 
 
+def independent(idnt, regressor, training_set="zef18", names=None, lda=None):
+    """a rater assembled from the documented pieces WITHOUT get_rater (so a
+    cache or shortcut inside get_rater cannot hide behind itself)"""
+    from nanite.rate.rater import IndentationRater
+    from nanite.rate.regressors import reg_dict
+    path = IndentationRater.get_training_set_path(label=training_set)
+    ts = IndentationRater.load_training_set(path=path, names=names)
+    cl, kw = reg_dict[regressor]
+    r = IndentationRater(regressor=cl(**dict(kw)), training_set=ts,
+                         names=names, lda=lda)
+    return float(r.rate(datasets=idnt)[0])
+
+
+def lda_sequences(run, cols, regs):
+    """the same curve rated with the three LDA settings in different orders
+    (and feature subsets): every value must equal the independently
+    assembled rater's, whatever was rated before in this process"""
+    names = ["feat_con_apr_sum", "feat_con_idt_sum", "feat_con_apr_size",
+             "feat_con_bln_slope", "feat_con_idt_maxima_75perc"]
+    expect = {}
+
+    def want(reg, lda, nm):
+        k = (reg, lda, tuple(nm) if nm else None)
+        if k not in expect:
+            expect[k] = independent(states(cols)["fitted"](), reg, lda=lda,
+                                    names=list(nm) if nm else None)
+        return expect[k]
+    for reg in regs:
+        for order in ([False, None, True], [None, False], [True, None]):
+            for nm in (None, names):
+                idnt = states(cols)["fitted"]()
+                for lda in order:
+                    key = f"lda-sequence:{reg}:{order}:{lda}:{bool(nm)}"
+                    run.case({"scenario": "lda-sequence", "regressor": reg,
+                              "order": order, "lda": lda,
+                              "subset": bool(nm)}, kind="lda-sequence")
+                    try:
+                        v = idnt.rate_quality(regressor=reg, lda=lda,
+                                              names=list(nm) if nm else None)
+                        w = want(reg, lda, nm)
+                    except BaseException as e:
+                        run.failing(SITE, key, f"rating with {reg}, lda={lda}"
+                                    f" raised {type(e).__name__}: {e}",
+                                    payload={"kind": "lda", "regressor": reg,
+                                             "order": order})
+                        continue
+                    if v != w:
+                        run.failing(
+                            SITE, key, f"rate_quality('{reg}', lda={lda}, "
+                            f"subset={bool(nm)}) after {order} returned {v} "
+                            f"but an independently assembled rater gives {w}",
+                            payload={"kind": "lda", "regressor": reg,
+                                     "order": order},
+                            theorem="C09_cache_hit_needs_equal_key")
+
+
 def real_oracle(run, regs, cols, big_cols):
     for sname, mk in states(cols).items():
         for reg in regs:
@@ -113,6 +169,10 @@ def real_oracle(run, regs, cols, big_cols):
                     v3 = standalone(mk(), reg)
                     if v3 != v1:
                         why = f"rating {v1} but standalone rater gives {v3}"
+                    v4 = independent(mk(), reg)
+                    if why is None and v4 != v1:
+                        why = (f"rating {v1} but an independently assembled "
+                               f"rater gives {v4}")
                 except BaseException as e:
                     why = f"standalone rater raised {type(e).__name__}: {e}"
             if why:
@@ -214,6 +274,10 @@ def check(run):
     big = m1.small_curve(31, n_app=700, n_ret=200)
     ok, detail = real_oracle(run, regs, big if run.tier != "quick" else cols,
                              big)
+    lda_sequences(run, big, ["SVR (linear kernel)", "SVR (RBF kernel)",
+                             "Decision Tree"] if run.tier == "quick" else
+                  ["SVR (linear kernel)", "SVR (RBF kernel)", "Decision Tree",
+                   "Extra Trees", "AdaBoost"])
     fixed_ids = [k["id"] for k in run.known if k.get("status") == "fixed"
                  and k["id"] == "C09/cache-by-reference"]
     for fid in fixed_ids:
